@@ -46,6 +46,7 @@ def main():
     open_known = [k for k in known if k.get("status") == "open"]
     out = Run(pid, cfg, a.tier, seed, open_known, a.only)
     out.write_baseline = a.write_baseline
+    out.partial = bool(a.no_bounded or a.only)
     try:
         out.deductive()
         if not a.no_bounded: out.bounded()
@@ -325,8 +326,11 @@ class Run:
                "level": level, "coverage": coverage,
                "assumptions": sorted(ev["assumptions"]) + PROPS.ENCODING_ASSUMPTIONS + sorted(set(ev["assumed_contracts"])),
                "wall_s": round(wall, 2), "violations": len(self.violations)}
-        os.makedirs(os.path.join(HERE, "evidence"), exist_ok=True)
-        with open(os.path.join(HERE, "evidence", "%s.json" % self.pid), "w") as f:
+        # evidence/ describes /repo itself; a run against another tree (VERIF_REPO=<scratch worktree>: seeded changes, mutation runs) or a
+        # partial run (--only / --no-bounded) writes to .scratch/evidence instead, so it can never replace the committed evidence
+        evdir = os.path.join(HERE, "evidence") if os.path.realpath(REPO) == "/repo" and not getattr(self, "partial", False) else os.path.join(HERE, ".scratch", "evidence")
+        os.makedirs(evdir, exist_ok=True)
+        with open(os.path.join(evdir, "%s.json" % self.pid), "w") as f:
             json.dump(doc, f, indent=1, default=str)
         print("%s: %d/%d obligations discharged (%s), %d cover ok, %d/%d canaries refuted, %d bounded cases, %d known finding(s), %.1fs"
               % (self.pid, ev["discharged"], ev["obligations"], ev["by_solver"], ev["covers_sat"], ev["canaries_refuted"], ev["canaries"],
